@@ -235,7 +235,13 @@ class Snap:
         """-> {partname: hash}; fills the caches"""
         V = self.V
         res = {}
-        for name, root in export_parts(prs, V).items():
+        try:
+            parts = export_parts(prs, V)
+        except Exception as e:  # noqa  -- the package itself can no longer be walked
+            h = "broken:" + type(e).__name__
+            self.lx[h] = [("package-broken", "iter_parts raised " + type(e).__name__)]
+            return {"<package>": h}
+        for name, root in parts.items():
             if root is None:
                 res[name] = "unparseable"
                 self.lx.setdefault("unparseable", [("other", "does not parse")])
@@ -371,6 +377,10 @@ def g_float(rng, lo, hi, p_bad=0.12):
 
 
 # ============================================================================ selectors (within one slide)
+# A selector lists CANDIDATES as (route, thunk) without touching the tree: many getters of the
+# public API create elements on read (font -> a:rPr, format.fill -> c:spPr, marker -> c:marker ...),
+# so the object is only resolved, by the thunk, inside the operation that uses it and the effect is
+# blamed on that operation (the route is part of the operation's name).
 def _safe(f, default=None):
     try:
         return f()
@@ -386,229 +396,240 @@ def all_shapes(slide, limit=60):
             if len(out) >= limit:
                 return
             out.append(sh)
-            if sh.shape_type is not None and _safe(lambda: sh.shape_type.name) == "GROUP":
+            if _safe(lambda: sh.shape_type.name) == "GROUP":
                 walk(sh.shapes)
     _safe(lambda: walk(slide.shapes))
     return out
 
 
+def K(route, f):
+    return (route, f)
+
+
+def sel_shapes(slide):
+    return [K("shape", lambda sh=sh: sh) for sh in all_shapes(slide)]
+
+
 def sel_containers(slide):
-    return [slide.shapes] + [sh.shapes for sh in all_shapes(slide) if hasattr(sh, "shapes")]
+    return [K("slide.shapes", lambda: slide.shapes)] + [K("group.shapes", lambda sh=sh: sh.shapes) for sh in all_shapes(slide) if hasattr(sh, "shapes")]
+
+
+def _charts(slide):
+    return [sh.chart for sh in all_shapes(slide) if _safe(lambda: sh.has_chart)]
+
+
+def _tables(slide):
+    return [sh.table for sh in all_shapes(slide) if _safe(lambda: sh.has_table)]
+
+
+def _cells(slide):
+    return [c for t in _tables(slide) for c in list(t.iter_cells())[:12]]
+
+
+def _axes(slide):
+    out = []
+    for ch in _charts(slide):
+        for nm in ("category_axis", "value_axis"):
+            ax = _safe(lambda: getattr(ch, nm))
+            if ax is not None:
+                out.append((nm, ax))
+    return out
+
+
+def _plots(slide):
+    return [p for ch in _charts(slide) for p in _safe(lambda: list(ch.plots), [])]
+
+
+def _series(slide):
+    return [s for p in _plots(slide) for s in _safe(lambda: list(p.series)[:3], [])]
+
+
+def _points(slide):
+    out = []
+    for s in _series(slide):
+        pts = _safe(lambda: s.points)
+        n = _safe(lambda: len(pts), 0) or 0
+        for i in range(min(n, 2)):
+            out.append((type(s).__name__, pts, i))
+    return out
 
 
 def sel_text_frames(slide):
     out = []
     for sh in all_shapes(slide):
         if _safe(lambda: sh.has_text_frame):
-            out.append(sh.text_frame)
-        if _safe(lambda: sh.has_table):
-            for c in list(sh.table.iter_cells())[:6]:
-                out.append(c.text_frame)
-        if _safe(lambda: sh.has_chart):
-            ch = sh.chart
-            if _safe(lambda: ch.has_title):
-                out.append(ch.chart_title.text_frame)
-    ns = slide if not _safe(lambda: slide.has_notes_slide) else None
+            out.append(K("shape.text_frame", lambda sh=sh: sh.text_frame))
+    for c in _cells(slide)[:6]:
+        out.append(K("cell.text_frame", lambda c=c: c.text_frame))
+    for ch in _charts(slide):
+        if _safe(lambda: ch.has_title):
+            out.append(K("chart_title.text_frame", lambda ch=ch: ch.chart_title.text_frame))
     if _safe(lambda: slide.has_notes_slide):
-        tf = _safe(lambda: slide.notes_slide.notes_text_frame)
-        if tf is not None:
-            out.append(tf)
+        out.append(K("notes_text_frame", lambda: slide.notes_slide.notes_text_frame))
+    for nm, ax in _axes(slide):
+        if _safe(lambda: ax.has_title):
+            out.append(K("axis_title.text_frame", lambda ax=ax: ax.axis_title.text_frame))
     return out
 
 
 def sel_paragraphs(slide):
-    return [p for tf in sel_text_frames(slide) for p in tf.paragraphs[:4]]
-
-
-def sel_runs(slide):
-    return [r for p in sel_paragraphs(slide) for r in p.runs[:3]]
-
-
-def sel_charts(slide):
-    return [sh.chart for sh in all_shapes(slide) if _safe(lambda: sh.has_chart)]
-
-
-def sel_tables(slide):
-    return [sh.table for sh in all_shapes(slide) if _safe(lambda: sh.has_table)]
-
-
-def sel_cells(slide):
-    return [c for t in sel_tables(slide) for c in list(t.iter_cells())[:12]]
-
-
-def sel_axes(slide):
     out = []
-    for ch in sel_charts(slide):
-        for nm in ("category_axis", "value_axis"):
-            ax = _safe(lambda: getattr(ch, nm))
-            if ax is not None:
-                out.append(ax)
+    for route, th in sel_text_frames(slide):
+        tf = _safe(th)
+        n = _safe(lambda: len(tf.paragraphs), 0) or 0 if tf is not None and "axis_title" not in route and "chart_title" not in route else 0
+        if "axis_title" in route or "chart_title" in route:
+            # resolving these text frames creates c:tx/c:rich: keep them lazy, first paragraph only
+            out.append(K(route + ".paragraph", lambda th=th: th().paragraphs[0]))
+            continue
+        for i in range(min(n, 4)):
+            out.append(K(route + ".paragraph", lambda th=th, i=i: th().paragraphs[i]))
     return out
 
 
-def sel_plots(slide):
-    return [p for ch in sel_charts(slide) for p in _safe(lambda: list(ch.plots), [])]
-
-
-def sel_series(slide):
-    return [s for p in sel_plots(slide) for s in _safe(lambda: list(p.series)[:3], [])]
-
-
-def sel_points(slide):
+def sel_runs(slide):
     out = []
-    for s in sel_series(slide):
-        pts = _safe(lambda: s.points)
-        n = _safe(lambda: len(pts), 0)
-        for i in range(min(n, 2)):
-            out.append(pts[i])
+    for route, th in sel_paragraphs(slide):
+        if "_title" in route:
+            continue
+        p = _safe(th)
+        n = _safe(lambda: len(p.runs), 0) or 0
+        for i in range(min(n, 3)):
+            out.append(K(route + ".run", lambda th=th, i=i: th().runs[i]))
+    return out
+
+
+def sel_fonts(slide):
+    out = [K(r + ".font", lambda th=th: th().font) for r, th in sel_runs(slide)]
+    out += [K(r + ".font", lambda th=th: th().font) for r, th in sel_paragraphs(slide)[:4]]
+    for ch in _charts(slide):
+        out.append(K("chart.font", lambda ch=ch: ch.font))
+        if _safe(lambda: ch.has_legend):
+            out.append(K("legend.font", lambda ch=ch: ch.legend.font))
+    for nm, ax in _axes(slide):
+        out.append(K(nm + ".tick_labels.font", lambda ax=ax: ax.tick_labels.font))
+    for r, th in sel_dlabels(slide):
+        out.append(K(r + ".font", lambda th=th: th().font))
     return out
 
 
 def sel_dlabels(slide):
     out = []
-    for p in sel_plots(slide):
+    for p in _plots(slide):
         if _safe(lambda: p.has_data_labels):
-            out.append(p.data_labels)
-    for s in sel_series(slide)[:2]:
-        dl = _safe(lambda: s.data_labels)
-        if dl is not None:
-            out.append(dl)
-    return out
-
-
-def sel_fonts(slide):
-    out = [r.font for r in sel_runs(slide)] + [p.font for p in sel_paragraphs(slide)[:4]]
-    for ch in sel_charts(slide):
-        out.append(ch.font)
-        if _safe(lambda: ch.has_legend):
-            out.append(ch.legend.font)
-    for ax in sel_axes(slide):
-        tl = _safe(lambda: ax.tick_labels)
-        if tl is not None:
-            out.append(tl.font)
-    for dl in sel_dlabels(slide):
-        out.append(dl.font)
+            out.append(K("plot.data_labels", lambda p=p: p.data_labels))
+    for s in _series(slide)[:2]:
+        if hasattr(s, "data_labels"):
+            out.append(K(type(s).__name__ + ".data_labels", lambda s=s: s.data_labels))
     return out
 
 
 def sel_fills(slide):
-    out = [slide.background.fill] if hasattr(slide, "background") else []
+    out = []
+    if hasattr(slide, "background"):
+        out.append(K("background.fill", lambda: slide.background.fill))
     for sh in all_shapes(slide):
-        f = _safe(lambda: sh.fill)
-        if f is not None:
-            out.append(f)
-    out += [c.fill for c in sel_cells(slide)[:4]]
-    out += [f.fill for f in sel_fonts(slide)[:3]]
-    for s in sel_series(slide):
-        out.append(s.format.fill)
-        m = _safe(lambda: s.marker)
-        if m is not None:
-            out.append(m.format.fill)
-    for p in sel_points(slide):
-        out.append(p.format.fill)
-    for ch in sel_charts(slide):
-        f = _safe(lambda: ch.plots[0].chart.element is not None and None)
+        if hasattr(sh, "fill") and not _safe(lambda: sh.shape_type.name) in ("GROUP",):
+            out.append(K("shape.fill", lambda sh=sh: sh.fill))
+    out += [K("cell.fill", lambda c=c: c.fill) for c in _cells(slide)[:4]]
+    out += [K(r + ".fill", lambda th=th: th().fill) for r, th in sel_fonts(slide)[:3]]
+    for s in _series(slide):
+        out.append(K(type(s).__name__ + ".format.fill", lambda s=s: s.format.fill))
+        if hasattr(s, "marker"):
+            out.append(K(type(s).__name__ + ".marker.format.fill", lambda s=s: s.marker.format.fill))
+    for sn, pts, i in _points(slide):
+        out.append(K(sn + ".point.format.fill", lambda pts=pts, i=i: pts[i].format.fill))
     return out
 
 
 def sel_lines(slide):
     out = []
     for sh in all_shapes(slide):
-        ln = _safe(lambda: sh.line)
-        if ln is not None:
-            out.append(ln)
-    for s in sel_series(slide):
-        out.append(s.format.line)
-    for p in sel_points(slide):
-        out.append(p.format.line)
-    for ax in sel_axes(slide):
-        out.append(ax.format.line)
+        if hasattr(sh, "line"):
+            out.append(K("shape.line", lambda sh=sh: sh.line))
+    for s in _series(slide):
+        out.append(K(type(s).__name__ + ".format.line", lambda s=s: s.format.line))
+        if hasattr(s, "marker"):
+            out.append(K(type(s).__name__ + ".marker.format.line", lambda s=s: s.marker.format.line))
+    for sn, pts, i in _points(slide):
+        out.append(K(sn + ".point.format.line", lambda pts=pts, i=i: pts[i].format.line))
+    for nm, ax in _axes(slide):
+        out.append(K(nm + ".format.line", lambda ax=ax: ax.format.line))
         if _safe(lambda: ax.has_major_gridlines):
-            out.append(ax.major_gridlines.format.line)
+            out.append(K(nm + ".major_gridlines.format.line", lambda ax=ax: ax.major_gridlines.format.line))
     return out
 
 
 def sel_colors(slide):
-    out = [f.color for f in sel_fonts(slide)]
-    for fl in sel_fills(slide):
-        c = _safe(lambda: fl.fore_color)
-        if c is not None:
-            out.append(c)
-        c = _safe(lambda: fl.back_color)
-        if c is not None:
-            out.append(c)
-        for st in _safe(lambda: list(fl.gradient_stops), []):
-            out.append(st.color)
-    for ln in sel_lines(slide):
-        c = _safe(lambda: ln.color)
-        if c is not None:
-            out.append(c)
+    out = [K(r + ".color", lambda th=th: th().color) for r, th in sel_fonts(slide)]
+    for r, th in sel_fills(slide):
+        out.append(K(r + ".fore_color", lambda th=th: th().fore_color))
+        out.append(K(r + ".back_color", lambda th=th: th().back_color))
+    for r, th in sel_lines(slide):
+        out.append(K(r + ".color", lambda th=th: th().color))
+    for r, th in sel_gstops(slide):
+        out.append(K(r + ".color", lambda th=th: th().color))
     return out
 
 
-def sel_kind(slide, kind):
-    return [sh for sh in all_shapes(slide) if _safe(lambda: sh.shape_type is not None and sh.shape_type.name) == kind]
-
-
-def sel_placeholders(slide):
-    return _safe(lambda: list(slide.placeholders), [])
+def sel_gstops(slide):
+    out = []
+    for r, th in sel_fills(slide):
+        # only fills that already are gradients (reading .type does not touch the tree)
+        fl = _safe(th) if r in ("shape.fill", "cell.fill", "background.fill") else None
+        if fl is not None and _safe(lambda: fl.type.name) == "GRADIENT":
+            n = _safe(lambda: len(fl.gradient_stops), 0) or 0
+            for i in range(min(n, 3)):
+                out.append(K(r + ".gradient_stops", lambda th=th, i=i: th().gradient_stops[i]))
+    return out
 
 
 def sel_markers(slide):
     out = []
-    for s in sel_series(slide):
-        m = _safe(lambda: s.marker)
-        if m is not None:
-            out.append(m)
-    for p in sel_points(slide):
-        m = _safe(lambda: p.marker)
-        if m is not None:
-            out.append(m)
+    for s in _series(slide):
+        if hasattr(s, "marker"):
+            out.append(K(type(s).__name__ + ".marker", lambda s=s: s.marker))
+    for sn, pts, i in _points(slide):
+        out.append(K(sn + ".point.marker", lambda pts=pts, i=i: pts[i].marker))
     return out
 
 
 def sel_hyperlinks(slide):
-    out = [r.hyperlink for r in sel_runs(slide)]
+    out = [K(r + ".hyperlink", lambda th=th: th().hyperlink) for r, th in sel_runs(slide)]
     for sh in all_shapes(slide):
-        ca = _safe(lambda: sh.click_action)
-        if ca is not None:
-            out.append(ca.hyperlink)
+        if hasattr(sh, "click_action"):
+            out.append(K("shape.click_action.hyperlink", lambda sh=sh: sh.click_action.hyperlink))
     return out
 
 
-def sel_legends(slide):
-    return [ch.legend for ch in sel_charts(slide) if _safe(lambda: ch.has_legend)]
-
-
-def sel_gstops(slide):
-    return [st for fl in sel_fills(slide) for st in _safe(lambda: list(fl.gradient_stops), [])]
-
-
-def sel_point_labels(slide):
-    return [p.data_label for p in sel_points(slide)]
-
-
-def sel_axis_titles(slide):
-    return [ax.axis_title for ax in sel_axes(slide) if _safe(lambda: ax.has_title)]
-
-
-def sel_ticklabels(slide):
-    return [tl for tl in (_safe(lambda ax=ax: ax.tick_labels) for ax in sel_axes(slide)) if tl is not None]
+def _kind(slide, kind):
+    return [sh for sh in all_shapes(slide) if _safe(lambda: sh.shape_type.name) == kind]
 
 
 SELECTORS = {
-    "shape": all_shapes, "text_frame": sel_text_frames, "paragraph": sel_paragraphs, "run": sel_runs, "font": sel_fonts,
-    "fill": sel_fills, "line": sel_lines, "color": sel_colors, "chart": sel_charts, "table": sel_tables, "cell": sel_cells,
-    "axis": sel_axes, "plot": sel_plots, "series": sel_series, "point": sel_points, "dlabels": sel_dlabels,
-    "marker": sel_markers, "hyperlink": sel_hyperlinks, "legend": sel_legends, "gstop": sel_gstops,
-    "point_label": sel_point_labels, "axis_title": sel_axis_titles, "ticklabels": sel_ticklabels,
-    "picture": lambda s: sel_kind(s, "PICTURE"), "connector": lambda s: [sh for sh in all_shapes(s) if hasattr(sh, "begin_connect")],
-    "autoshape": lambda s: [sh for sh in all_shapes(s) if hasattr(sh, "adjustments")],
-    "slide": lambda s: [s], "background": lambda s: [s.background],
-    "shadow": lambda s: [x for x in (_safe(lambda sh=sh: sh.shadow) for sh in all_shapes(s)) if x is not None],
-    "container": sel_containers, "placeholder": sel_placeholders,
-    "row": lambda s: [r for t in sel_tables(s) for r in list(t.rows)[:3]],
-    "column": lambda s: [c for t in sel_tables(s) for c in list(t.columns)[:3]],
+    "shape": sel_shapes, "text_frame": sel_text_frames, "paragraph": sel_paragraphs, "run": sel_runs, "font": sel_fonts,
+    "fill": sel_fills, "line": sel_lines, "color": sel_colors,
+    "chart": lambda s: [K("chart", lambda ch=ch: ch) for ch in _charts(s)],
+    "table": lambda s: [K("table", lambda t=t: t) for t in _tables(s)],
+    "cell": lambda s: [K("cell", lambda c=c: c) for c in _cells(s)],
+    "axis": lambda s: [K(nm, lambda ax=ax: ax) for nm, ax in _axes(s)],
+    "plot": lambda s: [K(type(p).__name__, lambda p=p: p) for p in _plots(s)],
+    "series": lambda s: [K(type(x).__name__, lambda x=x: x) for x in _series(s)],
+    "point": lambda s: [K(sn + ".point", lambda pts=pts, i=i: pts[i]) for sn, pts, i in _points(s)],
+    "dlabels": sel_dlabels, "marker": sel_markers, "hyperlink": sel_hyperlinks,
+    "legend": lambda s: [K("legend", lambda ch=ch: ch.legend) for ch in _charts(s) if _safe(lambda: ch.has_legend)],
+    "gstop": sel_gstops,
+    "point_label": lambda s: [K(sn + ".point.data_label", lambda pts=pts, i=i: pts[i].data_label) for sn, pts, i in _points(s)],
+    "axis_title": lambda s: [K(nm + ".axis_title", lambda ax=ax: ax.axis_title) for nm, ax in _axes(s) if _safe(lambda: ax.has_title)],
+    "ticklabels": lambda s: [K(nm + ".tick_labels", lambda ax=ax: ax.tick_labels) for nm, ax in _axes(s)],
+    "picture": lambda s: [K("picture", lambda sh=sh: sh) for sh in _kind(s, "PICTURE")],
+    "connector": lambda s: [K("connector", lambda sh=sh: sh) for sh in all_shapes(s) if hasattr(sh, "begin_connect")],
+    "autoshape": lambda s: [K("autoshape", lambda sh=sh: sh) for sh in all_shapes(s) if hasattr(sh, "adjustments")],
+    "slide": lambda s: [K("slide", lambda: s)],
+    "shadow": lambda s: [K("shape.shadow", lambda sh=sh: sh.shadow) for sh in all_shapes(s) if type(sh).__name__ != "GraphicFrame" and hasattr(sh, "shadow")],
+    "container": sel_containers,
+    "placeholder": lambda s: [K("placeholder", lambda p=p: p) for p in _safe(lambda: list(s.placeholders), [])],
+    "row": lambda s: [K("row", lambda r=r: r) for t in _tables(s) for r in list(t.rows)[:3]],
+    "column": lambda s: [K("column", lambda c=c: c) for t in _tables(s) for c in list(t.columns)[:3]],
 }
 
 
@@ -830,13 +851,30 @@ def init_tables():
 
 
 def op_name(op):
+    via = op.get("via") or op.get("sel")
+    if op["kind"] == "set":
+        return "%s.%s" % (via, op["attr"])
+    if op["kind"] == "call":
+        return "%s.%s" % (via, op["meth"].strip("_"))
+    if op["kind"] == "ph_insert":
+        return "placeholder.insert_" + op["what"]
+    return op["kind"]
+
+
+def sig_op(op, err):
+    """operation kind used in a signature: the coarse kind (selector.attribute), or -- when the
+    offending element was created by a getter on the way to the object (c:marker under a series
+    that cannot have one) -- the route up to that getter"""
+    via = op.get("via") or ""
+    local = err[1].split("/@")[0].split(":")[-1]
+    segs = via.split(".")
+    if local in segs:
+        return ".".join(segs[: segs.index(local) + 1])
     if op["kind"] == "set":
         return "%s.%s" % (op["sel"], op["attr"])
     if op["kind"] == "call":
         return "%s.%s" % (op["sel"], op["meth"].strip("_"))
-    if op["kind"] == "ph_insert":
-        return "placeholder.insert_" + op["what"]
-    return op["kind"]
+    return op_name(op)
 
 
 def pick(lst, k):
@@ -856,15 +894,19 @@ def exec_op(prs, op):
     slide = slides[op["s"] % len(slides)]
     k = op["k"]
     if kind == "set":
-        obj = pick(SELECTORS[op["sel"]](slide), k)
-        if obj is None:
+        cand = pick(SELECTORS[op["sel"]](slide), k)
+        if cand is None:
             return "skip"
+        op["via"] = cand[0]
+        obj = cand[1]()
         setattr(obj, op["attr"], dec(op["val"]))
         return "ok"
     if kind == "call":
-        obj = pick(SELECTORS[op["sel"]](slide), k)
-        if obj is None:
+        cand = pick(SELECTORS[op["sel"]](slide), k)
+        if cand is None:
             return "skip"
+        op["via"] = cand[0]
+        obj = cand[1]()
         a = [dec(x) for x in op["args"]]
         m = op["meth"]
         if m == "__adjust__":
@@ -883,7 +925,7 @@ def exec_op(prs, op):
         else:
             getattr(obj, m)(*a)
         return "ok"
-    cont = pick(sel_containers(slide), k)
+    cont = pick(sel_containers(slide), k)[1]()
     a = [dec(x) for x in op.get("args", [])]
     if kind == "add_shape":
         cont.add_shape(*a)
@@ -913,7 +955,7 @@ def exec_op(prs, op):
         ec = _enums()[0]
         cont.add_chart(ec.XL_CHART_TYPE[op["data"]["type"]], *a, build_chart_data(op["data"]))
     elif kind == "replace_data":
-        ch = pick(sel_charts(slide), k)
+        ch = pick(_charts(slide), k)
         if ch is None:
             return "skip"
         d = dict(op["data"])
@@ -928,7 +970,7 @@ def exec_op(prs, op):
         sh.add_ole_object(blob("ole"), dec(op["prog"]), a[0], a[1], *extra, icon_file=blob(op["icon"]) if op["icon"] else None)
     elif kind == "ph_insert":
         want = {"picture": "insert_picture", "chart": "insert_chart", "table": "insert_table"}[op["what"]]
-        phs = [p for p in sel_placeholders(slide) if hasattr(p, want)]
+        phs = [p for p in _safe(lambda: list(slide.placeholders), []) if hasattr(p, want)]
         ph = pick(phs, k)
         if ph is None:
             return "skip"
@@ -940,13 +982,13 @@ def exec_op(prs, op):
         else:
             ph.insert_table(*op["rc"])
     elif kind == "connect":
-        cx = pick(SELECTORS["connector"](slide), k)
+        cx = pick([sh for sh in all_shapes(slide) if hasattr(sh, "begin_connect")], k)
         tg = pick([sh for sh in slide.shapes if hasattr(sh, "adjustments") or _safe(lambda: sh.has_text_frame)], op["j"])
         if cx is None or tg is None:
             return "skip"
         (cx.begin_connect if op["end"] == "begin" else cx.end_connect)(tg, op["site"])
     elif kind == "merge":
-        t = pick(sel_tables(slide), k)
+        t = pick(_tables(slide), k)
         if t is None:
             return "skip"
         nr, nc = len(t.rows), len(t.columns)
@@ -966,7 +1008,6 @@ def _robust(f):
 
 
 SELECTORS = {k: _robust(v) for k, v in SELECTORS.items()}
-sel_containers_raw = sel_containers
 
 
 def gen_op_live(rng, prs):
@@ -980,15 +1021,15 @@ def gen_op_live(rng, prs):
             slide = prs.slides[op["s"] % n]
             if not SELECTORS[op["sel"]](slide):
                 continue
-        elif op["kind"] == "replace_data" and not sel_charts(prs.slides[op["s"] % n]):
+        elif op["kind"] == "replace_data" and not _charts(prs.slides[op["s"] % n]):
             continue
-        elif op["kind"] == "merge" and not sel_tables(prs.slides[op["s"] % n]):
+        elif op["kind"] == "merge" and not _tables(prs.slides[op["s"] % n]):
             continue
         elif op["kind"] == "connect" and not SELECTORS["connector"](prs.slides[op["s"] % n]):
             continue
         elif op["kind"] == "ph_insert":
             want = {"picture": "insert_picture", "chart": "insert_chart", "table": "insert_table"}[op["what"]]
-            if not [p for p in sel_placeholders(prs.slides[op["s"] % n]) if hasattr(p, want)]:
+            if not [p for p in _safe(lambda: list(prs.slides[op["s"] % n].placeholders), []) if hasattr(p, want)]:
                 if rng.random() < 0.8:
                     continue
         return op
@@ -1192,7 +1233,7 @@ def _worker(job):
     seen = set()
     for (j, name, ne, h) in r["events"]:
         for e in ne:
-            sig = "%s|%s|%s" % (op_name(r["ops"][j]), e[0], e[1])
+            sig = "%s|%s|%s" % (sig_op(r["ops"][j], e), e[0], e[1].split("/@")[0] if e[0] == "attr-value" else e[1])
             if sig in seen:
                 continue
             seen.add(sig)
@@ -1244,6 +1285,8 @@ def find_part_for(V, snap, deck, ops, want):
     r = run_sequence(V, snap, deck, ops, record=rec)
     for (j, name, ne, h) in r["events"]:
         if tuple(want) in [tuple(x) for x in ne]:
+            if name == "<package>":
+                return name, ["the package can no longer be walked or saved: " + str(ne[0][1])], "", r["outcomes"]
             root = export_parts(rec["prs"], V).get(name)
             msgs, frag = [], ""
             if root is not None:
@@ -1255,14 +1298,141 @@ def find_part_for(V, snap, deck, ops, want):
                             msgs.append(re.sub(r"\{[^}]*\}", "", e.message)[:300])
                             if not frag:
                                 try:
-                                    lines = V.etree.tostring(pre).decode().split("\n")
-                                    frag = lines[e.line - 1][:400] if e.line - 1 < len(lines) else ""
-                                    if len(lines) <= 2:
-                                        frag = ""
+                                    ns = {}
+                                    for x in pre.iter():
+                                        for pf, uri in (x.nsmap or {}).items():
+                                            if pf:
+                                                ns.setdefault(pf, uri)
+                                    hit = pre.getroottree().xpath(e.path, namespaces=ns)
+                                    if hit:
+                                        el = hit[0] if e.path.endswith("]") or "@" not in e.path else hit[0].getparent()
+                                        par = el.getparent() if "not expected" in e.message and el.getparent() is not None else el
+                                        frag = re.sub(r' xmlns:\w+="[^"]*"', "", V.etree.tostring(par).decode())[:600]
                                 except Exception:  # noqa
                                     pass
             return name, msgs[:3], frag, r["outcomes"]
     return None, [], "", r["outcomes"]
+
+
+# ============================================================================ xop model ~ xmlchemy (tree level)
+def xop_correspondence(V, rng, ntrees, nops):
+    """Random sequences of the tree-level operation language on real lxml elements built from the
+    library's own templates, through the metaclass-generated methods (_insert_x, get_or_add_x,
+    _remove_x) and the attribute properties; the same sequences on the extracted model.
+    -> (cases, diffs, admissible_cases, notes)"""
+    import tx_c03
+    import tx_c10
+    import tx_c11
+    from pptx.oxml.xmlchemy import OxmlElement
+
+    unm = []
+    els = [(n, e) for n, e, _t, c in tx_c03.element_templates(unm) if c]
+    tmeta = {t["name"]: t for t in V.meta["templates"]}
+    els = [(n, e) for n, e in els if n in tmeta]
+    tag_ids, attr_ids = V.tag_ids, V.attr_ids
+    cases, expect = [], []
+
+    def path_of(root, el):
+        p = []
+        while el is not root:
+            par = el.getparent()
+            p.append([k for k in par if isinstance(k.tag, str)].index(el))
+            el = par
+        return p[::-1]
+
+    for _ in range(ntrees):
+        name, el0 = els[rng.randrange(len(els))]
+        root = copy.deepcopy(el0)
+        start = V.stream(root)
+        ops_stream, trace = [], []
+        for _j in range(nops):
+            cands = [e for e in root.iter() if isinstance(e.tag, str) and hasattr(e, "insert_element_before")]
+            e = cands[rng.randrange(len(cands))]
+            path = path_of(root, e)
+            ds = {k: v for k, v in tx_c10.class_decls(type(e)).items() if not v[3]}
+            ads = tx_c11.attr_decls(type(e))
+            choice = rng.random()
+            if ds and choice < 0.6:
+                mname = sorted(ds)[rng.randrange(len(ds))]
+                ctag, S, kind, _c = ds[mname]
+                x = mname[len("_insert_"):]
+                Sids = [tag_ids.get(t, 999999) for t in S]
+                what = rng.choice(["ins", "goa", "rem"])
+                try:
+                    if what == "ins":
+                        child = OxmlElement(ctag)
+                        getattr(e, "_insert_" + x)(child)
+                        ops_stream += [len(path)] + path + [1] + V.stream(child) + [len(Sids)] + Sids
+                    elif what == "goa" and hasattr(e, "get_or_add_" + x) and hasattr(e, "_new_" + x):
+                        child = getattr(e, "_new_" + x)()
+                        cs = V.stream(child)
+                        getattr(e, "get_or_add_" + x)()
+                        ops_stream += [len(path)] + path + [2] + cs + [len(Sids)] + Sids
+                    elif what == "rem" and hasattr(e, "_remove_" + x):
+                        getattr(e, "_remove_" + x)()
+                        ops_stream += [len(path)] + path + [3, 1, tag_ids.get(ctag, 999999)]
+                    else:
+                        continue
+                    trace.append((what, ctag, path))
+                except Exception as ex:  # noqa
+                    trace.append(("exc", what, ctag, repr(ex)[:60]))
+                    break
+            elif ads:
+                pname = sorted(ads)[rng.randrange(len(ads))]
+                aname, st, akind, _d = ads[pname]
+                val = rng.choice([0, 1, 5, 914400, -3, "x", "ctr", True, None, 2.5, "FF0000", 100000])
+                try:
+                    txt = st.to_xml(val) if val is not None else None
+                    refused = 0
+                except Exception:  # noqa
+                    txt, refused = "", 1
+                a_id = attr_ids.get(aname, 999999)
+                try:
+                    setattr(e, pname, val)
+                    did = "ok"
+                except Exception as ex:  # noqa
+                    did = "exc"
+                if val is None:
+                    if did == "exc":      # required attribute refuses None before touching the tree
+                        continue
+                    ops_stream += [len(path)] + path + [6, a_id]
+                else:
+                    if (did == "exc") != (refused == 1):
+                        trace.append(("setter/to_xml mismatch", pname, repr(val)))
+                        break
+                    # OptionalAttribute assigned its default removes the attribute
+                    from pptx.oxml.ns import qn
+                    present = e.get(qn(aname) if ":" in aname else aname)
+                    if refused == 0 and present is None:
+                        ops_stream += [len(path)] + path + [6, a_id]
+                    else:
+                        ops_stream += [len(path)] + path + [5, a_id, refused, len(txt)] + [ord(ch) for ch in txt]
+                trace.append(("set", pname, repr(val), did))
+        f = lambda s_: ",".join(str(ord(ch)) for ch in s_)
+        cases.append("%s\t%s\t%s\t%s" % (f("ops"), f(str(tmeta[name]["ty"])), ",".join(map(str, start)), ",".join(map(str, ops_stream)) or "-"))
+        expect.append((name, trace, V.stream(root)))
+    import subprocess
+    p = subprocess.run([os.path.join(COQ, "extract", "run_c03")], input=("\n".join(cases) + "\n").encode("ascii"),
+                       stdout=subprocess.PIPE, stderr=subprocess.PIPE, timeout=1800)
+    outs = p.stdout.decode().split("\n")[:-1]
+    diffs, adm, notes, broken_thm = 0, 0, [], 0
+    for (name, trace, want), o in zip(expect, outs):
+        parts = o.split("|")
+        if len(parts) != 4:
+            diffs += 1
+            notes.append("badcase on %s %s: %s" % (name, trace[:4], o[:60]))
+            continue
+        before, alladm, after, tree = parts
+        got = [int(x) for x in tree.split()]
+        if got != want:
+            diffs += 1
+            if len(notes) < 5:
+                notes.append("tree diff on %s after %s" % (name, trace))
+        if before == "True" and alladm == "True":
+            adm += 1
+            if after != "True":
+                broken_thm += 1
+    return len(cases), diffs, adm, broken_thm, notes
 
 
 # ============================================================================ Coq side: diagnostics
@@ -1308,9 +1478,9 @@ def jobs_for(tier, seed):
     default = decks[0]
     jobs = []
     if tier == "quick":
-        nseq, nops = 200, 10
+        nseq, nops = 480, 10
     else:
-        nseq, nops = 2400, 10
+        nseq, nops = 12000, 10
     others = decks[1:]
     for i in range(nseq):
         if tier == "quick":
@@ -1393,6 +1563,19 @@ def run(ck, tier, rng):
         a = meta["adecls"][aid]
         ck.violation("attr-write:" + a["sig"], "attribute %s: descriptor %s can write outside the lexical space of %s (see C11)" % (
             a["sig"], a["desc"][:60], a["type"]), {"theorem_or_correspondence": "C03_attrs_admissible", "input": a}, concrete=False)
+    # 3b. the tree-level operation model against the real xmlchemy methods
+    xo = (0, 0, 0, 0, [])
+    try:
+        xo = xop_correspondence(V, rng, 400 if tier == "quick" else 3000, 6)
+        for i in range(xo[0]):
+            ck.count(("xop", i), True, "xop-sequence")
+        if xo[1] or xo[3]:
+            ck.violation("correspondence-xop", "model/XmlValid.v apply_op and the generated xmlchemy methods disagree on %d of %d operation sequences "
+                         "(%d admissible sequences broke order_valid): %s" % (xo[1], xo[0], xo[3], xo[4][:2]),
+                         {"theorem_or_correspondence": "correspondence XmlValid.apply_op ~ oxml/xmlchemy.py on real lxml trees", "notes": xo[4]},
+                         concrete=False)
+    except Exception:  # noqa
+        ck.notes.append("xop correspondence crashed: " + traceback.format_exc()[-400:])
     # 4. observed part
     jobs = jobs_for(tier, ck.seed)
     nproc = 8 if tier == "quick" else 16
@@ -1485,7 +1668,8 @@ def run(ck, tier, rng):
                "mutated_after_exception": mutated,
                "mutation_sites_seen": sorted(sites), "direct_set_sites": sorted(set_sites), "direct_remove_sites": sorted(rem_sites),
                "decl_rows": len(meta["decls"]), "attr_rows": len(meta["adecls"]), "attr_rows_not_judged": len(diag["attr_nj"]),
-               "observed_findings": sorted(findings), "exhaustive": False, "wall_observed_s": round(time.time() - t_start, 1)},
+               "observed_findings": sorted(findings), "exhaustive": False,
+               "xop_sequences": xo[0], "xop_tree_diffs": xo[1], "xop_admissible_sequences": xo[2], "wall_observed_s": round(time.time() - t_start, 1)},
     )
 
 
